@@ -296,9 +296,9 @@ theorem parseParams_encode (ws : List WArg) :
         exact hstep _ _ hb' hwf'
       · cases ha
     | float bits =>
-      simp only [writeArg] at ha
-      cases ha
       have hlt : bits < 4294967296 := by simpa [WArg.wf] using hw
+      simp only [writeArg, hlt, if_true] at ha
+      cases ha
       have hg := getFloat_at pre (b ++ post) bits hlt
       simp only [List.map_cons, WArg.tag, WArg.tok, parseParams, nestRun]
       rw [show pre ++ (be32 bits ++ b) ++ post = pre ++ be32 bits ++ (b ++ post) by
@@ -932,7 +932,7 @@ theorem writeArg_length {w : WArg} {x : Bytes} (h : writeArg w = .ok x) :
      | .strBad => False) := by
   cases w with
   | int i => simp only [writeArg] at h; split at h <;> cases h; simp
-  | float b => cases h; simp [writeArg]
+  | float b => simp only [writeArg] at h; split at h <;> cases h; simp
   | str s =>
     simp only [writeArg] at h; split at h <;> cases h
     exact ⟨writeString_aligned s, writeString_length' s⟩
